@@ -44,9 +44,24 @@ def run_impl(case):
         if case.get("prev") is not None:
             # the same object has analysed another sample (same number of events) before: the results for this sample
             # must not depend on that history
-            obj.mean_pT_correlations(mk_events(case["prev"]), compute_error=False)
-            kap_first = obj.mean_pT_cumulants(mk_events(case["events"]), compute_error=False)
-            corr = obj.mean_pT_correlations(mk_events(case["events"]), compute_error=False)
+            if case.get("inplace"):
+                # ... and it was the SAME list object, changed in place afterwards (events replaced / refilled)
+                L = mk_events(case["prev"])
+                obj.mean_pT_correlations(L, compute_error=False)
+                if case["inplace"] == "cumulants_first":
+                    obj.mean_pT_cumulants(L, compute_error=False)
+                new = mk_events(case["events"])
+                for i in range(len(L)):
+                    if case["inplace"] == "inner":
+                        L[i][:] = new[i]
+                    else:
+                        L[i] = new[i]
+                kap_first = obj.mean_pT_cumulants(L, compute_error=False)
+                corr = obj.mean_pT_correlations(L, compute_error=False)
+            else:
+                obj.mean_pT_correlations(mk_events(case["prev"]), compute_error=False)
+                kap_first = obj.mean_pT_cumulants(mk_events(case["events"]), compute_error=False)
+                corr = obj.mean_pT_correlations(mk_events(case["events"]), compute_error=False)
             N = np.array(obj.N_events, dtype=float).reshape(len(case["events"]), -1)
             D = np.array(obj.D_events, dtype=float).reshape(len(case["events"]), -1)
             return {"N": N.tolist(), "D": D.tolist(), "corr": list(map(float, corr)), "kappa": list(map(float, kap_first))}
@@ -146,6 +161,8 @@ def gen_case(rng, small=False, mo=None, nev=None, history=True):
     case = {"max_order": mo, "events": evs}
     if top and history and rng.random() < 0.33:
         case["prev"] = gen_case(rng, small=small, mo=mo, nev=nev, history=False)["events"]
+        if rng.random() < 0.5:
+            case["inplace"] = rng.choice(["inner", "outer", "cumulants_first"])
     return case
 
 
@@ -294,6 +311,8 @@ def _smaller(c):
         d = {"max_order": c["max_order"], "events": e}
         if pv is not None:
             d["prev"] = pv
+            if c.get("inplace"):
+                d["inplace"] = c["inplace"]
         return d
     if prev is not None:
         yield mk(evs, None)
